@@ -31,6 +31,9 @@ pub enum XferOp {
     /// retransmission storm: the sender repeats every part of the latest tick `times` more times, except
     /// that part number `missing` keeps getting lost (so the transfer stays incomplete while duplicates pile up)
     Storm { times: u8, missing: u8 },
+    /// the application copies the receiver (`Clone`, e.g. to keep a state to roll back to) and goes on with the
+    /// copy; the copy must behave exactly like the original, also in the middle of a transfer
+    Fork,
 }
 
 struct Transfer {
@@ -101,6 +104,7 @@ impl Engine for XferEngine {
         };
         let len_profile = c.below(5);
         let resets = c.chance(1, 5);
+        let forks = c.chance(1, 5);
         let storm = c.chance(1, 8);
         let mut ops = Vec::new();
         let mut tick = first_tick as i64;
@@ -144,6 +148,9 @@ impl Engine for XferEngine {
             for _ in 0..deliveries {
                 if resets && s.chance(1, 25) {
                     ops.push(XferOp::Reset);
+                }
+                if forks && s.chance(1, 12) {
+                    ops.push(XferOp::Fork);
                 }
                 if loss > 0 && s.chance(loss, 1000) {
                     ops.push(XferOp::Drop { pick: s.below(64) as i32 });
@@ -259,6 +266,16 @@ impl Engine for XferEngine {
                             ctx.fault_inflight = true;
                             ctx.logf(|| format!("storm: tick {} repeated {} times without part {}", transfers[idx].tick, times, miss));
                         }
+                    }
+                }
+                XferOp::Fork => {
+                    ctx.t(6);
+                    if !cur_parts.is_empty() && !cur_done {
+                        ctx.count("probe_fork_mid_transfer");
+                    }
+                    match guard(|| recv.clone()) {
+                        Ok(copy) => recv = copy,
+                        Err(p) => return Some(Self::v("panic", &[("where", "clone"), ("message", &p.msg_class()), ("file", &p.file_class())], format!("clone panicked: {} at {}:{}", p.msg, p.file, p.line))),
                     }
                 }
                 XferOp::Reset => {
